@@ -45,6 +45,19 @@ class M:
         return ov
 
 
+class _Stored:
+    """a stored patch as a mutant (overlay precomputed)"""
+    rule = None
+    why = "seeded breaking change"
+
+    def __init__(self, mid, ov):
+        self.id = mid
+        self._ov = ov
+
+    def overlay(self, repo):
+        return self._ov
+
+
 class T(M):
     """benign twin expressed as a text edit (must stay silent)"""
 
@@ -227,6 +240,21 @@ def run(prop, repo, seed=0, verbose=False):
     twins = [(n, fn(repo)) for n, fn in GENERIC_TWINS]
     for tw in getattr(mm, "TWINS", []):
         twins.append((tw.id, tw.overlay(repo)))
+    # stored corpora: behaviour-preserving refactorings must stay silent, seeded breaking changes of this property
+    # must be reported (both written by independent sub-agents; see gverif.seeded)
+    from . import seeded as _sd
+    import json as _json
+    import os as _os
+    for sid, d in _sd.corpus("benign"):
+        twins.append(("benign/" + sid, _sd.overlay_of(repo, d)))
+    for sid, d in _sd.corpus("seeded"):
+        try:
+            meta = _json.load(open(_os.path.join(d, "meta.json")))
+        except Exception:
+            continue
+        if prop in (meta.get("properties") or [meta.get("property")]):
+            mutants.append(_Stored("seeded/" + sid, _sd.overlay_of(repo, d)))
+    overlays = [mu.overlay(repo) for mu in mutants]
     jobs = [(prop, repo.root, ov, seed) for ov in overlays if ov is not None] + [(prop, repo.root, ov, seed) for _, ov in twins if ov is not None]
     results = _map(jobs)
     it = iter(results)
